@@ -521,14 +521,6 @@ func (C04) Run(t *testing.T, scAny any) *sim.Outcome {
 		checkSquashed(out, sc, sb, views[len(views)-1], strict[len(strict)-1], ctxs)
 	}
 	dedupeByKey(out)
-	if os.Getenv("VERIF_DEBUG") == "keys" {
-		var ks []string
-		for _, v := range out.Violations {
-			ks = append(ks, v.Key)
-		}
-		b, _ := json.Marshal(loaded)
-		fmt.Printf("DEBUGKEYS %s %v %s\n", sim.FP(loaded), ks, b)
-	}
 	return out
 }
 
